@@ -76,18 +76,20 @@ pub fn gen(rng: &mut Prng, plan: &mut Plan) {
     let nsteps = rng.range(1, 5);
     for _ in 0..nsteps {
         let kind = rng.below(4).min(2); // 0 sqrt, 1 cbrt, 2 nth (twice as likely)
+        // (a 'huge degree' regime - n >= 4096, x >= 50 kbit - costs ~20 s per call and is outside the envelope)
+        let huge = false;
         let mut n: u32 = match kind {
             0 => 2,
             1 => 3,
             _ => *rng.pick(&[1u32, 2, 3, 4, 5, 7, 8, 16, 31, 32, 33, 64, 100, 0, u32::MAX, 1000]),
         };
         let (mut x, regime) = gen_x(rng, n, thorough);
-        if kind == 2 && rng.chance(1, 6) {
+        if kind == 2 && !huge && rng.chance(1, 6) {
             // degree relative to the bit length: bits-1, bits, bits+1
             let bits = RefNat::from_u32s(&x).bits();
             n = (bits as i64 + rng.below(3) as i64 - 1).clamp(1, u32::MAX as i64) as u32;
         }
-        if RefNat::from_u32s(&x).bits() > MAX_BITS {
+        if !huge && RefNat::from_u32s(&x).bits() > MAX_BITS {
             x.truncate((MAX_BITS / 32) as usize);
         }
         let api = rng.below(2);
